@@ -52,6 +52,7 @@ pub struct Params {
     pub cleaner_idioms: bool,
     pub forward_idioms: bool,
     pub saturate_idioms: bool,
+    pub chain_idioms: bool,
     pub exact_threshold_prologue: u32, // percent of runs that start by driving allocated bytes exactly onto the threshold
 }
 
@@ -79,7 +80,7 @@ pub fn params(profile: &str) -> Params {
         set(&mut w, &[(O::FinAgain, 1)]);
     }
     if HAS_AUTO {
-        set(&mut w, &[(O::CfgAuto, 1), (O::CfgBuffered, 1), (O::CfgPercent, 1), (O::NewBorrowed, 1)]);
+        set(&mut w, &[(O::CfgAuto, 1), (O::CfgBuffered, 1), (O::CfgPercent, 1), (O::CfgReplace, 1), (O::NewBorrowed, 1)]);
     }
     if HAS_CLEAN {
         set(&mut w, &[(O::Register, 2), (O::Clean, 1), (O::DropCleanable, 1)]);
@@ -113,6 +114,7 @@ pub fn params(profile: &str) -> Params {
         cleaner_idioms: false,
         forward_idioms: false,
         saturate_idioms: false,
+        chain_idioms: false,
         exact_threshold_prologue: 0,
     };
     let all_faults = vec![
@@ -135,11 +137,13 @@ pub fn params(profile: &str) -> Params {
             p.fault_kinds = all_faults;
         }
         "finalize" => {
+            p.chain_idioms = true;
             p.fin_rate = 75;
             p.drop_rate = 10;
             set(&mut p.w, &[(O::FinAgain, 4), (O::Collect, 10)]);
         }
         "resurrect" => {
+            p.chain_idioms = true;
             p.fin_rate = 85;
             p.fin_minis = vec![(M::ChildToRoot, 8), (M::ChildToNode, 5), (M::GrandToRoot, 3), (M::SelfWeakToRoot, 5), (M::WeakToRoot, 5), (M::DropRoot, 4), (M::ClearSlot, 3), (M::Alloc, 3), (M::Read, 3), (M::AllocDrop, 2), (M::SelfWeakToSlot, 4), (M::WeakToSlot, 4)];
             p.idiom_rate = 45;
@@ -194,7 +198,7 @@ pub fn params(profile: &str) -> Params {
             p.fault_kinds = vec![FaultKind::Closure, FaultKind::Closure, FaultKind::Trace, FaultKind::TraceEdge, FaultKind::Finalize, FaultKind::Drop];
         }
         "policy" => {
-            set(&mut p.w, &[(O::New, 22), (O::NewLeaf, 16), (O::CfgAuto, 4), (O::CfgBuffered, 4), (O::CfgPercent, 6), (O::NewInConfig, 2), (O::Collect, 5), (O::Drop, 22)]);
+            set(&mut p.w, &[(O::New, 22), (O::NewLeaf, 16), (O::CfgAuto, 4), (O::CfgBuffered, 4), (O::CfgPercent, 6), (O::CfgReplace, 4), (O::NewInConfig, 2), (O::Collect, 5), (O::Drop, 22)]);
             p.auto_rate = 90;
             p.leaf_rate = 45;
             p.ops = (6, 24, 64);
@@ -397,7 +401,11 @@ impl<'a> Gen<'a> {
             O::DropUnwrapped => Op::new(O::DropUnwrapped, &[self.r.below(self.sh.bag.max(1) as u64) as i64]),
             O::CfgAuto => Op::new(O::CfgAuto, &[self.r.below(2) as i64]),
             O::CfgBuffered => Op::new(O::CfgBuffered, &[*self.r.pick(&[0i64, 1, 1, 2, 5])]),
-            O::CfgPercent => Op::new(O::CfgPercent, &[*self.r.pick(&[0i64, 1, 100, 500, 1000, 999, 250, 2000, 37])]),
+            O::CfgPercent => {
+                let v = if self.r.chance(1, 3) { self.r.below(1001) as i64 } else { *self.r.pick(&[0i64, 1, 100, 500, 1000, 999, 250, 2000, 37, 290, 125]) };
+                Op::new(O::CfgPercent, &[v])
+            }
+            O::CfgReplace => Op::new(O::CfgReplace, &[self.r.below(3) as i64]),
             O::Register => {
                 let pool = self.p.act_minis.clone();
                 let s = if self.r.chance(3, 5) { self.script(&pool, 2) } else { vec![] };
@@ -436,6 +444,33 @@ impl<'a> Gen<'a> {
     fn idiom(&mut self) {
         use OpCode as O;
         let base = self.sh.roots.len() as i64;
+        if self.p.chain_idioms && HAS_FIN && self.r.chance(1, 6) && self.sh.objects + 12 <= self.p.max_objects {
+            // a chain of k self-cycles: the finalizer of link i releases the last handle of link i+1, so one collection
+            // needs k passes (the documented cap is 10); the last link resurrects itself
+            let k = 7 + self.r.below(6) as i64;
+            for i in 0..k {
+                let fin = if i + 1 < k {
+                    vec![Mini::new(MiniCode::DropRoot, &[base + i + 1])]
+                } else {
+                    match self.r.below(3) {
+                        0 => vec![Mini::new(MiniCode::ChildToRoot, &[0])],
+                        1 => vec![Mini::new(MiniCode::Read, &[])],
+                        _ => vec![Mini::new(MiniCode::ChildToRoot, &[0]), Mini::new(MiniCode::Alloc, &[0])],
+                    }
+                };
+                let store = STORE_KINDS.iter().position(|s| s.0 == "vec1").unwrap() as u16;
+                self.push(Op::new(O::New, &[]).with_tmpl(NodeTmpl { store, fin, drop: vec![] }));
+            }
+            for i in 0..k {
+                self.push(Op::new(O::SetSlot, &[base + i, 0, base + i]));
+            }
+            self.push(Op::new(O::Drop, &[base]));
+            self.push(Op::new(O::Collect, &[]));
+            if self.r.chance(1, 2) {
+                self.push(Op::new(O::Collect, &[]));
+            }
+            return;
+        }
         if self.p.saturate_idioms && self.r.chance(1, 2) {
             // every one of (about) 16382 pointers to one object sits in a traced field of a live owner, and a collection
             // visits them all: the tracing counter itself reaches the limit
@@ -726,7 +761,7 @@ pub fn generate_scaled(profile: &str, seed: u64, index: u64, scale: u64) -> Prog
     if HAS_AUTO {
         prog.knobs.auto = r.below(100) < p.auto_rate as u64;
         prog.knobs.buffered = *r.pick(&[0u32, 0, 1, 1, 2, 5]);
-        prog.knobs.permille = *r.pick(&[100u32, 100, 0, 500, 1000, 10, 333]);
+        prog.knobs.permille = if r.chance(1, 4) { r.below(1001) as u32 } else { *r.pick(&[100u32, 100, 0, 500, 1000, 10, 333, 290, 125]) };
     }
     let nops = r.size(p.ops.0, p.ops.1, p.ops.2);
     let mut g = Gen { r, p: &p, sh: Shadow { roots: vec![], weaks: 0, cleanables: 0, bag: 0, objects: 0 }, ops: vec![], stores, w };
